@@ -1,5 +1,5 @@
 # plan and claim for C19 (block-cipher MACs)
-_CFG = ["avx2", "aesni1", "noaes", "purego"]  # aesni1: the MACs call Block.Encrypt one block at a time, which has its own AES-NI routine
+_CFG = ["avx2", "aesni1", "noaes", "purego", "ia32"]  # aesni1: the MACs call Block.Encrypt one block at a time, which has its own AES-NI routine
 PLAN = dict(
     level="exploration",
     rule="tags: 8 constructions x {SM4, AES-128, DES, 3DES} x paddings (default, method 2, method 3 where selectable) x message "
